@@ -55,6 +55,8 @@ LEVEL = collections.defaultdict(lambda: "proof")
 def case_from_request(pid, line, r):
     """directed search: turn an L1-disagreeing request into a property-level case at that input"""
     t = line.split()
+    if len(t) < 5 or t[0] not in ("0", "1"):
+        return None                        # not a protocol request (build logs, launches, inventory entries)
     dbg, group, op = True, t[2], t[3]      # L2 always runs on the assertion-enabled build
     a = [gen.of_hex(x) for x in t[5:] if not x.startswith("#")]
     G = gen.GROUPS[group]
